@@ -24,13 +24,18 @@ PROPS = {
         "rule": "core: fixed regression corpus; every delta matrix with entries in {0,+1,-1} and m*n <= 6 (thorough: 8) over rotating "
                 "constructors; random schema trees (depth <= 4, fan-out <= 4, all 20 BSON element types, arrays in documents in arrays) with "
                 "per-leaf boundary values and delta patterns, every compressing constructor, N in {1,2,3,7,len,len+1}. Distinct = distinct case line.",
-        "level_text": "Theorems (Props/C01.lean) for all inputs: varint round trip for every uint64, zero-run stream round trip for every delta list "
-                      "(runs crossing metric boundaries), wrapping delta round trip, bit-exact leaf normalisation (bool, int32, double, timestamp words, "
-                      "datetime in the nanosecond range), and restoration of any document tree from its extracted values = the document with non-metric "
-                      "leaves removed. The model (collectors -> payload -> decoder -> structured documents) is run against the implementation on every case.",
-        "level_note": "Partial: the composition of the layers through the BSON byte serialiser/parser (parse(ser d) = d) is exercised by the correspondence run, "
-                      "not yet proved. The timestamp clause is false of the code (known finding F1, pinned by an existing unit test): its negation is proved "
-                      "(timestamp_clause_false) and the oracle classifies exactly that deviation as the known finding. Trusted: zlib (external), Lean kernel, harness.",
+        "level_text": "Theorems (Props/C01.lean) for all inputs. End to end for one chunk (chunk_roundtrip): for every document d0 and every list ds of documents of d0's schema "
+                      "(any tree of sub-documents and arrays, every leaf type, any values, any count), the payload getPayload writes is decoded by the reader into a chunk whose "
+                      "structured documents are exactly d0 :: ds with the non-metric leaves removed, in order. Its layers, each for all inputs: varint round trip for every uint64, "
+                      "zero-run stream round trip for every delta list (runs crossing metric boundaries) and its metric-by-metric reading (rleDecMetrics_of_flat), wrapping delta round "
+                      "trip, bit-exact leaf normalisation, the strict BSON parser on the serialiser's output (wire_document_roundtrip: parseDoc (serDoc d) = some d), restoration of "
+                      "a document from its own values and from the values of any document of the same schema (restore_other_document). The model (collectors -> payload -> decoder "
+                      "-> structured documents) is run against the implementation on every case.",
+        "level_note": "chunk_roundtrip carries the hypotheses: reference document well-formed and below 2^31 bytes, datetimes within the nanosecond range (the property's own domain), counts "
+                      "fit their 32-bit fields, and no timestamp leaf: the timestamp clause is false of the code (known finding F1, pinned by an existing unit test): its negation is "
+                      "proved (timestamp_clause_false) and the oracle classifies exactly that deviation as the known finding. Not proved: that every collector constructor hands "
+                      "exactly (d0, vals d0, ds.map vals) per chunk to getPayload (that is C07's faithful_log plus the correspondence run), and zlib. Trusted: zlib (external), Lean "
+                      "kernel, harness.",
         "assumptions": ["inflate(deflate x) = x (compress/zlib is external)", "birch parses every document the strict validator accepts as the model's parser does"],
     },
     "C02": {
